@@ -486,6 +486,61 @@ def run(ctx):
         pmap(one_shape, shapes, workers=6)
     generic_alias_shapes()
 
+    # (iii-i) computed fields: a variable declared by a switch case (or a field, an element, a member) used below every kind of expression node
+    def computed_zoo():
+        ctxs = ["{x}", "-{x}", "-(-{x})", "{x} + 1", "1 - {x}", "{x} * {x}", "{x} / 2", "{x} ** 2", "({x})", "{x} as float64", "-{x} as float64", "-({x} as int64)", "2 * -{x}", "(1 + -{x}) * 3"]
+        lines = ["CzInner: !record\n  fields:\n    p: int\n    v: int*\n    arr: 'float[2, 2]'\n",
+                 "Cz: !record\n  fields:\n    u: [int, float, CzInner]\n    o: int?\n    ou: [null, int, float]\n    inner: CzInner\n    n: int\n    vec: float*\n    m: string->int\n  computedFields:\n"]
+        k = 0
+        for cx in ctxs:
+            # switch over a union: the int case uses its variable only inside the context; the record case uses members / elements of its variable
+            for body_i, body_r in ((cx.format(x="i"), cx.format(x="r.p")), (cx.format(x="i"), cx.format(x="r.v[0]")), (cx.format(x="i"), cx.format(x="r.arr[1, 0]"))):
+                lines.append("    cu%d:\n      !switch u:\n        int i: %s\n        float f: %s\n        CzInner r: %s\n" % (k, body_i, cx.format(x="f"), body_r))
+                k += 1
+            lines.append("    co%d:\n      !switch o:\n        int j: %s\n        _: %s\n" % (k, cx.format(x="j"), cx.format(x="n")))
+            lines.append("    cn%d:\n      !switch ou:\n        int a: %s\n        float b: %s\n        null: %s\n" % (k, cx.format(x="a"), cx.format(x="b"), cx.format(x="n")))
+            lines.append("    cf%d: %s\n" % (k, cx.format(x="n")))
+            lines.append("    cm%d: %s\n" % (k, cx.format(x="inner.p")))
+            lines.append("    ce%d: %s\n" % (k, cx.format(x="vec[0]")))
+            lines.append("    cs%d: %s\n" % (k, cx.format(x="(size(vec) as int)")))
+            lines.append("    cmap%d: %s\n" % (k, cx.format(x="m['k']")))
+            # a switch nested in a case, the inner case using the outer variable
+            lines.append("    cnest%d:\n      !switch o:\n        int j:\n          !switch ou:\n            int a: %s\n            _: %s\n        _: %s\n" % (k, cx.format(x="j"), cx.format(x="j"), cx.format(x="n")))
+            k += 1
+        model = "".join(lines) + "CzProto: !protocol\n  sequence:\n    c: Cz\n"
+        root = os.path.join(ctx.workdir, "cases", "computed_zoo")
+        shutil.rmtree(root, ignore_errors=True)
+        outs = ("cpp:\n  sourcesOutputDir: ../out/cpp\n  generateHDF5: false\n  generateCMakeLists: false\n  generateNDJson: false\n  overrideArrayHeader: %s\npython:\n  outputDir: ../out/python\n"
+                "matlab:\n  outputDir: ../out/matlab\n" % cxx.ARRAY_HEADER)
+        common.write_tree(root, {"pkg/_package.yml": "namespace: CompZoo\n" + outs, "pkg/model.yml": model})
+        res = check_outputs(ctx, root, os.path.join(root, "pkg"), home, "computed fields that use switch-case variables, fields, members and elements below every kind of expression node", "computed-zoo", full_cpp=True)
+        ctx.case(("computed-zoo",))
+        ctx.count("computed-zoo.%s" % res)
+        if res == "rejected":
+            ctx.violation("valid-model-rejected:computed-zoo", "the computed-field zoo is rejected", {"case_dir": root})
+        elif res == "ok":
+            # the Python side only fails when a computed field is *called*: call every one of them on a value of each union case
+            pyd = os.path.join(root, "out/python")
+            code = ("import sys; sys.path.insert(0, %r); import comp_zoo as z, numpy as np\n"
+                    "inner = z.CzInner(p=3, v=[4, 5], arr=np.array([[1.0, 2.0], [3.0, 4.0]], dtype=np.float32))\n"
+                    "bad = []\n"
+                    "for u in (z.Int32OrFloat32OrCzInner.Int32(7), z.Int32OrFloat32OrCzInner.Float32(2.5), z.Int32OrFloat32OrCzInner.CzInner(inner)):\n"
+                    "  for o, ou in ((5, z.Int32OrFloat32.Int32(2)), (None, z.Int32OrFloat32.Float32(1.5)), (1, None)):\n"
+                    "    c = z.Cz(u=u, o=o, ou=ou, inner=inner, n=9, vec=[1.5, 2.5], m={'k': 4})\n"
+                    "    for name in dir(c):\n"
+                    "      if name[:2] in ('cu', 'co', 'cn', 'cf', 'cm', 'ce', 'cs') and callable(getattr(c, name)):\n"
+                    "        try: getattr(c, name)()\n"
+                    "        except Exception as e: bad.append('%%s: %%s: %%s' %% (name, type(e).__name__, e))\n"
+                    "print(len(bad)); print('\\n'.join(sorted(set(bad))[:5]))\n" % pyd)
+            pr = common.run([common.PY, "-c", code], cpu_s=120)
+            ctx.ev()
+            first = (pr.stdout.strip().split("\n") or ["?"])[0]
+            if pr.rc != 0 or first != "0":
+                ctx.violation("python-computed-field-raises:computed-zoo", "calling the generated Python computed fields raises: %s %s" % (pr.stdout[-500:], pr.stderr[-300:]), {"case_dir": root})
+            else:
+                shutil.rmtree(root, ignore_errors=True)
+    computed_zoo()
+
     # (iv) init scaffolds
     def init(nm):
         root = os.path.join(ctx.workdir, "cases", "init_%s" % nm[:30])
